@@ -84,6 +84,8 @@ struct TlsState {
     /// the n-th transport write fails once with this kind (a transient condition)
     write_fault: Option<(usize, io::ErrorKind)>,
     writes: usize,
+    /// the client->server stream ends (read returns 0) after this many bytes
+    eof_at: Option<usize>,
 }
 
 #[derive(Clone)]
@@ -171,6 +173,11 @@ impl Read for TlsSim {
             return Err(io::Error::new(io::ErrorKind::Other, "VERIF op budget exhausted"));
         }
         s.pump();
+        if let Some(e) = s.eof_at {
+            if s.delivered >= e {
+                return Ok(0);
+            }
+        }
         if s.delivered >= s.to_server.len() {
             if s.script_written && !s.client.is_handshaking() && !s.client.wants_write() {
                 return Ok(0); // the client has said everything
@@ -181,6 +188,9 @@ impl Read for TlsSim {
         let mut end = s.to_server.len();
         if let Some(c) = s.cuts.iter().find(|c| **c > s.delivered) {
             end = end.min(*c);
+        }
+        if let Some(e) = s.eof_at {
+            end = end.min(e);
         }
         let n = (end - s.delivered).min(buf.len()).min(s.uniform);
         let d = s.delivered;
@@ -287,6 +297,7 @@ fn run_tls_full(server_tls: Option<Arc<rustls::ServerConfig>>, client_cert: bool
         reads: 0,
         write_fault: WRITE_FAULT.with(|w| w.get()),
         writes: 0,
+        eof_at: EOF_AT.with(|w| w.get()),
     };
     let sim = TlsSim(Rc::new(RefCell::new(st)));
     let mut shim = Shim::new(None, tls_behave());
@@ -704,6 +715,62 @@ impl Family for SslRequests {
 thread_local! {
     static WRITE_FAULT: std::cell::Cell<Option<(usize, io::ErrorKind)>> = std::cell::Cell::new(None);
     static AUTH_REJECT: std::cell::Cell<Option<u64>> = std::cell::Cell::new(None);
+    static EOF_AT: std::cell::Cell<Option<usize>> = std::cell::Cell::new(None);
+}
+
+/// the client's stream ends (no close_notify) after k bytes of a TLS session: inside the TLS
+/// handshake, inside a record that carries commands, or exactly between two records. Only the
+/// last can be a legitimate end of the conversation; anywhere else run_on must report an error.
+struct TlsEof {
+    positions: Vec<usize>,
+    boundaries: Vec<usize>,
+    tls12: bool,
+}
+impl TlsEof {
+    fn new(quick: bool, tls12: bool) -> Self {
+        let o = run_tls_with(Some(pki().server_plain.clone()), false, vec![], usize::MAX, 0, tls12);
+        let stream = o.st.to_server;
+        let mut boundaries = vec![];
+        let mut off = 36;
+        while off + 5 <= stream.len() {
+            boundaries.push(off);
+            off += 5 + ((stream[off + 3] as usize) << 8 | stream[off + 4] as usize);
+        }
+        boundaries.push(stream.len());
+        let positions = split_positions(&stream, quick).into_iter().filter(|p| *p < stream.len()).collect();
+        TlsEof { positions, boundaries, tls12 }
+    }
+}
+impl Family for TlsEof {
+    fn name(&self) -> String {
+        format!("tls-stream-ends-early-{}", if self.tls12 { "tls12" } else { "tls13" })
+    }
+    fn len(&self) -> u64 {
+        self.positions.len() as u64
+    }
+    fn run(&self, idx: u64, st: &mut Stats) -> Result<(), Violation> {
+        let p = self.positions[idx as usize];
+        st.nontrivial += 1;
+        st.bump("tls_eof_points");
+        EOF_AT.with(|w| w.set(Some(p)));
+        let o = run_tls_with(Some(pki().server_plain.clone()), false, vec![], usize::MAX, 0, self.tls12);
+        EOF_AT.with(|w| w.set(None));
+        st.transitions += o.st.reads as u64;
+        let at_boundary = self.boundaries.contains(&p);
+        if let ConnResult::Panic(l, m) = &o.res {
+            return Err(Violation::new(panic_key(l, m), format!("client stream ends after {} bytes: run_on panicked at {}: {}", p, l, m)));
+        }
+        if o.res.is_ok() && !at_boundary {
+            return Err(Violation::new("eof-inside-tls-record-masked", format!("the client's stream ends after {} bytes, inside a TLS record (records start at {:?}...): run_on returned Ok", p, &self.boundaries[..self.boundaries.len().min(8)])));
+        }
+        if !at_boundary {
+            st.bump("tls_eof_inside_a_record");
+        }
+        Ok(())
+    }
+    fn describe(&self, idx: u64) -> J {
+        json!({"client_stream_ends_after_bytes": self.positions[idx as usize], "tls12": self.tls12})
+    }
 }
 
 /// one transient failure (`Interrupted` / `WouldBlock`, once) of each transport write the server
@@ -784,6 +851,8 @@ pub fn build(quick: bool) -> Check {
     }
     families.push(Box::new(HelloSizes::new(quick)));
     families.push(Box::new(SslRequests));
+    families.push(Box::new(TlsEof::new(quick, false)));
+    families.push(Box::new(TlsEof::new(quick, true)));
     families.push(Box::new(TlsWriteFaults::new(false)));
     families.push(Box::new(TlsWriteFaults::new(true)));
     for cc in [false, true] {
@@ -795,7 +864,7 @@ pub fn build(quick: bool) -> Check {
     Check {
         id: "C18",
         level: "model_checking",
-        rule: "a live rustls client inside the transport: SSLRequest (plaintext) immediately followed by the ClientHello, then, once the server's flight arrived, Finished (+ client certificate) coalesced with the encrypted HandshakeResponse41 and six pipelined commands, among them a 20000-byte query (several inbound TLS records) answered by a resultset with a 40000-byte cell and 250 rows (115 KB: several outbound records, more than rustls buffers unsent). Schedules: every single cut position of the whole client->server stream (quick: every position of the first 1600 bytes and within 6 bytes of each TLS record header, every 13th elsewhere), every pair of cut positions within SSLRequest+ClientHello (thorough: every pair within the first 1100 bytes), uniform read sizes 1..64; with and without a client certificate; the single cuts again with a TLS 1.2 client; ClientHello sizes (padded with ALPN names) swept across 3.6-4.2 KB, 7.8-8.3 KB, 15.9-16.5 KB and up to 60 KB, coalesced with the SSL request or not; SSL requests in the pre-4.1 layout (naming another user in the clear) and connection-phase sequence ids other than 1, 2; each transport write of a TLS session failing once with Interrupted / WouldBlock, with an accepting and a rejecting shim; plus a TLS-requesting client against a shim without TLS configuration under every cut of its first flight. Oracle: user name and certificate chain at after_authentication, callback log = script, every server byte after the greeting lies in a well-formed TLS record the client accepts, decrypted replies decode strictly with the right sequence ids, run_on returns Ok; no-config case: Err and no callback.".into(),
+        rule: "a live rustls client inside the transport: SSLRequest (plaintext) immediately followed by the ClientHello, then, once the server's flight arrived, Finished (+ client certificate) coalesced with the encrypted HandshakeResponse41 and six pipelined commands, among them a 20000-byte query (several inbound TLS records) answered by a resultset with a 40000-byte cell and 250 rows (115 KB: several outbound records, more than rustls buffers unsent). Schedules: every single cut position of the whole client->server stream (quick: every position of the first 1600 bytes and within 6 bytes of each TLS record header, every 13th elsewhere), every pair of cut positions within SSLRequest+ClientHello (thorough: every pair within the first 1100 bytes), uniform read sizes 1..64; with and without a client certificate; the single cuts again with a TLS 1.2 client; ClientHello sizes (padded with ALPN names) swept across 3.6-4.2 KB, 7.8-8.3 KB, 15.9-16.5 KB and up to 60 KB, coalesced with the SSL request or not; SSL requests in the pre-4.1 layout (naming another user in the clear) and connection-phase sequence ids other than 1, 2; the client's stream ending (without close_notify) at every such position of a TLS 1.3 and a TLS 1.2 session - Ok is only acceptable exactly between two TLS records; each transport write of a TLS session failing once with Interrupted / WouldBlock, with an accepting and a rejecting shim; plus a TLS-requesting client against a shim without TLS configuration under every cut of its first flight. Oracle: user name and certificate chain at after_authentication, callback log = script, every server byte after the greeting lies in a well-formed TLS record the client accepts, decrypted replies decode strictly with the right sequence ids, run_on returns Ok; no-config case: Err and no callback.".into(),
         assumptions: vec![
             "ring's randomness is not owned: handshake bytes differ between runs and with a client certificate the stream length varies by a byte or two; cut positions are taken from the stream actually produced, the verdict does not depend on the random values".into(),
             "flush behaviour is C12's subject; here written bytes are visible to the client at once".into(),
@@ -804,6 +873,6 @@ pub fn build(quick: bool) -> Check {
         exhaustive: true,
         caps_hit: vec![],
         families,
-        required: vec!["tls_write_faults", "ssl_request_variants", "client_hello_beyond_4096_bytes", "client_hello_in_two_records", "tls12_handshakes", "splits_inside_client_hello", "splits_inside_ssl_request", "ssl_request_coalesced_with_client_hello", "client_chains_delivered", "refusals", "tls_records_from_server"],
+        required: vec!["tls_eof_inside_a_record", "tls_write_faults", "ssl_request_variants", "client_hello_beyond_4096_bytes", "client_hello_in_two_records", "tls12_handshakes", "splits_inside_client_hello", "splits_inside_ssl_request", "ssl_request_coalesced_with_client_hello", "client_chains_delivered", "refusals", "tls_records_from_server"],
     }
 }
